@@ -1,8 +1,113 @@
 import GraafVerif.Driver.Common
-/-! Driver handlers for property C08 (ops the harness module `ops/c08.rs` emits). -/
-namespace GraafVerif.Driver.H08
-open GraafVerif GraafVerif.Driver
+import GraafVerif.Model.Fw
+/-!
+Driver handler for C08:  `fw_dist [wi n warcs] => panic | rows flat bfm dij`
+(see `harness/src/ops/c08.rs`).
 
-def handlers : List (String × Handler) := []
+* correspondence: `rows` (pair index) and `flat` (`dist.dist`) against `Fw.run`;
+* property oracle (on the IMPLEMENTATION's `rows`): for every source `s`, the naive relaxation
+  oracle `wdistB g [s]` must equal row `s` (`inf` ↔ `none`), the diagonal must be `0`, and the
+  rows must equal what the real `BellmanFordMoore` / (non-negative weights) `DijkstraDist`
+  returned.  The precondition "no negative circuit" is re-checked here with the oracle's
+  negative-cycle flag from every vertex; when it fails the property does not apply
+  (`neg-cycle-skipped`, model comparison only).
+-/
+namespace GraafVerif.Driver.H08
+open GraafVerif GraafVerif.Driver GraafVerif.Fw
+
+def entV : Option Int → V
+  | none => .a "inf"
+  | some x => .i x
+
+def ent? : V → Option (Option Int)
+  | .a "inf" => some none
+  | .i x => some (some x)
+  | _ => none
+
+def rowV (r : List (Option Int)) : V := .l (r.map entV)
+
+/-- What `AdjacencyListWeighted::empty` / `add_arc_weighted` accept without panicking. -/
+def validDesc (d : GDesc) : Bool :=
+  d.order > 0 && d.warcs.all (fun a => a.1 < d.order && a.2.1 < d.order && a.1 != a.2.1)
+
+/-- Executable form of the theorems' hypotheses `WGraph.WF` and `WGraph.Functional` on the
+vertices `< n` (the rows of the model digraph are built by the shared `GDesc.wgraph`). -/
+def hypsB (g : WGraph) : Bool :=
+  (List.range g.n).all (fun u =>
+    let r := g.out u
+    r.all (fun vw => vw.1 < g.n) && (r.map (·.1)).Pairwise (· ≠ ·))
+
+def modelOut (g : WGraph) : List V :=
+  match run g with
+  | .panic => [.a "panic"]
+  | .ok m => [.l ((List.range g.n).map (fun u => rowV (row g.n m u))), rowV m]
+
+/-- First difference between two rows, for the report. -/
+def firstDiff (s : Nat) (a b : List (Option Int)) : String :=
+  match ((List.range (max a.length b.length)).filter (fun v => a[v]? != b[v]?)).head? with
+  | some v => s!"({s},{v}) impl={entV ((a[v]?).getD none)} want={entV ((b[v]?).getD none)}"
+  | none => s!"row {s}"
+
+def oracle (g : WGraph) (rows : List (List (Option Int))) (bfm : List (Option (List (Option Int))))
+    (dij : Option (List (List (Option Int)))) : Option String :=
+  if rows.length != g.n then some s!"matrix has {rows.length} rows for order {g.n}" else
+  let perRow := (List.range g.n).filterMap (fun s =>
+    let r := (rows[s]?).getD []
+    let want := (wdistB g [s]).1
+    if r != want then some ("not-min-walk-weight " ++ firstDiff s r want)
+    else if (r[s]?).getD none != some 0 then some s!"diagonal ({s},{s}) not 0"
+    else match (bfm[s]?).getD none with
+      | none => some s!"real BellmanFordMoore from {s} reports a negative circuit"
+      | some b =>
+        if b != r then some ("row-differs-from-real-BFM " ++ firstDiff s r b)
+        else match dij with
+          | none => none
+          | some dj =>
+            if (dj[s]?).getD [] != r then some ("row-differs-from-real-Dijkstra " ++ firstDiff s r ((dj[s]?).getD []))
+            else none)
+  perRow.head?
+
+def hDist : Handler := fun _ args observed =>
+  match args with
+  | [dv] => do
+    let d ← GDesc.parse dv
+    if d.repr != "wi" then none
+    if !validDesc d then
+      -- construction of the digraph itself panics (C01's business): only the outcome is compared
+      pure (classify observed [.a "panic"] none (nt := false) ["invalid-desc"])
+    else
+      let g := d.wgraph
+      if !hypsB g then
+        pure (bad "model digraph violates WF/Functional (driver bug)")
+      else
+      let model := modelOut g
+      let negArcs := d.warcs.any (fun a => a.2.2 < 0)
+      let baseTags := [sizeTag d.order, if negArcs then "neg-arcs" else "nonneg"]
+      let negCycle := (List.range g.n).any (fun s => (wdistB g [s]).2)
+      match observed with
+      | [.a "panic"] =>
+        pure (classify observed model (some "panicked on a valid digraph") true (baseTags ++ ["res-panic"]))
+      | [rowsV, flatV, bfmV, dijV] =>
+        let rows ← V.listOf? (V.listOf? ent?) rowsV
+        let _flat ← V.listOf? ent? flatV
+        let bfm ← V.listOf? (V.opt? (V.listOf? ent?)) bfmV
+        let dij ← (match dijV with
+          | .a "na" => some none
+          | v => (V.listOf? (V.listOf? ent?) v).map some)
+        let obs2 := [rowsV, flatV]
+        if negCycle then
+          pure (classify obs2 model none (nt := false) (baseTags ++ ["neg-cycle-skipped"]))
+        else
+          let hasInf := rows.any (fun r => r.any Option.isNone)
+          let sym := (List.range g.n).all (fun u => (List.range g.n).all (fun v =>
+            ((rows[u]?).getD [])[v]? == ((rows[v]?).getD [])[u]?))
+          let tags := baseTags ++ [if hasInf then "has-inf" else "all-finite",
+            if sym then "sym-matrix" else "asym-matrix",
+            if dij.isSome then "dijkstra-compared" else "dijkstra-na"]
+          pure (classify obs2 model (oracle g rows bfm dij) (nt := d.order ≥ 2 && !d.warcs.isEmpty) tags)
+      | _ => none
+  | _ => none
+
+def handlers : List (String × Handler) := [("fw_dist", hDist)]
 
 end GraafVerif.Driver.H08
